@@ -300,8 +300,13 @@ func c04GenParse2(r *rand.Rand, base vtree) c04Case {
 		path := c04GenPath2(r, p.Dest, true, false)
 		arg := []string{"p1", "p2", "p3", "bad", "p\\,4", "", "missing", "{p1,p2}", "{p1,bad}", "{p3}", "{}"}[r.Intn(11)]
 		c04SetS(p, c04ShowPath(path)+"="+arg)
+		if rv, ok := p.Reader[arg]; ok && !rv.Err && arg != "" {
+			p.Pairs = []c04Pair{{Path: path, Val: rv.Val}}
+			p.NamesKnown = true
+		}
 		if r.Intn(4) == 0 {
 			c04SetS(p, p.S+",c.d=p2")
+			p.Pairs, p.NamesKnown = nil, false
 		}
 		tag = "p2-callback"
 	case k < 21: // the entry points that start from a fresh map
@@ -404,8 +409,11 @@ func c04Corpus2() []any {
 	}
 	// ParseFile / ParseIntoFile with a callback that returns typed values, in brace lists and at nested indexes
 	for _, fn := range []string{"ParseFile", "ParseIntoFile"} {
-		pf := &c04Parse{Fn: fn, Dest: vtree{}, V2: true, S: "a=p1,b[0][1]={p1,p2},c.d[2]=p3",
-			Reader: map[string]c04RVal{"p1": {Val: vtree{"k": []interface{}{int64(1)}}}, "p2": {Val: int64(7)}, "p3": {Val: nil}}}
+		pf := &c04Parse{Fn: fn, Dest: vtree{}, V2: true, S: "a=p1,b[0][1]={p1,p2},c.d[2]=p3", NamesKnown: true,
+			Reader: map[string]c04RVal{"p1": {Val: vtree{"k": []interface{}{int64(1)}}}, "p2": {Val: int64(7)}, "p3": {Val: nil}},
+			Pairs: []c04Pair{{Path: []c04Seg{seg("a")}, Val: vtree{"k": []interface{}{int64(1)}}},
+				{Path: []c04Seg{seg("b", 0, 1)}, Val: []interface{}{vtree{"k": []interface{}{int64(1)}}, int64(7)}},
+				{Path: []c04Seg{seg("c"), seg("d", 2)}, Val: nil}}}
 		out = append(out, c04Case{Kind: "parse", Tag: "corpus-parse2", Parse: pf})
 		pe := &c04Parse{Fn: fn, Dest: vtree{}, V2: true, S: "a=p1,b[0]=bad,c=p1", Reader: map[string]c04RVal{"p1": {Val: "v"}, "bad": {Val: "partial", Err: true}}}
 		out = append(out, c04Case{Kind: "parse", Tag: "corpus-parse2", Parse: pe})
@@ -414,18 +422,50 @@ func c04Corpus2() []any {
 	add("ParseLiteralInto", "a[0][0].", vtree{"a": []interface{}{[]interface{}{int64(5)}}}, nil, false)
 	add("ParseInto", "a[0][0].", vtree{"a": []interface{}{[]interface{}{int64(5)}}}, nil, false)
 	// index boundaries through deep paths (results too large to print): MaxIndex is accepted
-	for _, fn := range []string{"ParseInto", "ParseLiteralInto"} {
-		pr := &c04Parse{Fn: fn, Dest: vtree{"keep": int64(1)}, V2: true, Probes: [][]orStep{
-			{{Key: "a"}, {Idx: c04MaxIndex, Is: true}}, {{Key: "a"}, {Idx: c04MaxIndex - 1, Is: true}}, {{Key: "a"}, {Idx: c04MaxIndex + 1, Is: true}},
-			{{Key: "a"}, {Idx: 0, Is: true}}, {{Key: "b"}, {Idx: 1, Is: true}, {Idx: c04MaxIndex, Is: true}, {Key: "c"}}, {{Key: "b"}, {Idx: 0, Is: true}}, {{Key: "keep"}}}}
-		c04SetS(pr, fmt.Sprintf("a[%d]=x", c04MaxIndex))
-		if fn == "ParseInto" {
-			c04SetS(pr, fmt.Sprintf("a[%d]=x,b[1][%d].c=y", c04MaxIndex, c04MaxIndex))
+	for _, fn := range []string{"ParseInto", "ParseLiteralInto", "ParseIntoString"} {
+		idx := func(k string, is ...int) []orStep {
+			q := []orStep{{Key: k}}
+			for _, i := range is {
+				q = append(q, orStep{Idx: i, Is: true})
+			}
+			return q
 		}
+		pr := &c04Parse{Fn: fn, Dest: vtree{"keep": int64(1)}, V2: true,
+			Probes:    [][]orStep{idx("a", c04MaxIndex), idx("a", c04MaxIndex-1), idx("a", c04MaxIndex+1), idx("a", 0), idx("keep")},
+			ProbeWant: []c04Probed{{Found: true, Val: "x"}, {Found: true}, {}, {Found: true}, {Found: true, Val: int64(1)}}}
+		c04SetS(pr, fmt.Sprintf("a[%d]=x", c04MaxIndex))
 		out = append(out, c04Case{Kind: "parse", Tag: "corpus-probe", Parse: pr})
-		pe := &c04Parse{Fn: fn, Dest: vtree{}, V2: true, Probes: [][]orStep{{{Key: "a"}}}}
+		if fn != "ParseLiteralInto" {
+			p2 := &c04Parse{Fn: fn, Dest: vtree{}, V2: true,
+				Probes:    [][]orStep{append(idx("b", 1, c04MaxIndex), orStep{Key: "c"}), idx("b", 0), idx("b", 1, 0), idx("d")},
+				ProbeWant: []c04Probed{{Found: true, Val: "y"}, {Found: true}, {Found: true}, {Found: true, Val: "z"}}}
+			c04SetS(p2, fmt.Sprintf("b[1][%d].c=y,d=z", c04MaxIndex))
+			out = append(out, c04Case{Kind: "parse", Tag: "corpus-probe", Parse: p2})
+		}
+		pe := &c04Parse{Fn: fn, Dest: vtree{}, V2: true, Probes: [][]orStep{idx("a", 0, 0)}, ProbeWant: []c04Probed{{}}, WantErr: true}
 		c04SetS(pe, fmt.Sprintf("a[0][%d]=x", c04MaxIndex+1))
 		out = append(out, c04Case{Kind: "parse", Tag: "corpus-probe", Parse: pe})
+		pn := &c04Parse{Fn: fn, Dest: vtree{}, V2: true, Probes: [][]orStep{idx("a", 0)}, ProbeWant: []c04Probed{{}}, WantErr: true}
+		c04SetS(pn, "a[-1]=x")
+		out = append(out, c04Case{Kind: "parse", Tag: "corpus-probe", Parse: pn})
+	}
+	// a nested index into a nested list that exists: the siblings stay, for every parser
+	nd := vtree{"a": []interface{}{[]interface{}{int64(1), int64(2), int64(3)}, "s", []interface{}{[]interface{}{"p", "q"}}}, "k": "keep"}
+	for _, w := range []struct {
+		fn, s string
+		val   interface{}
+	}{{"ParseInto", "a[0][2]=7", int64(7)}, {"ParseIntoString", "a[0][2]=7", "7"}, {"ParseLiteralInto", "a[0][2]=7,8", "7,8"}, {"ParseJSON", "a[0][2]=[7]", []interface{}{int64(7)}},
+		{"ParseIntoFile", "a[0][2]=p", "P"}} {
+		pp := &c04Parse{Fn: w.fn, Dest: nd, V2: true, NamesKnown: true, Pairs: []c04Pair{{Path: []c04Seg{seg("a", 0, 2)}, Val: w.val}}}
+		if w.fn == "ParseIntoFile" {
+			pp.Reader = map[string]c04RVal{"p": {Val: "P"}}
+		}
+		c04SetS(pp, w.s)
+		out = append(out, c04Case{Kind: "parse", Tag: "corpus-parse2", Parse: pp})
+		p3 := &c04Parse{Fn: w.fn, Dest: nd, V2: true, NamesKnown: true, Pairs: []c04Pair{{Path: []c04Seg{seg("a", 2, 0, 1)}, Val: w.val}}}
+		p3.Reader = pp.Reader
+		c04SetS(p3, strings.Replace(w.s, "a[0][2]", "a[2][0][1]", 1))
+		out = append(out, c04Case{Kind: "parse", Tag: "corpus-parse2", Parse: p3})
 	}
 	return out
 }
